@@ -66,9 +66,10 @@ static void CaseSoupBuilder(Rng &r, Reporter &rep) {
   static const GeometryAttribute::Type tys[] = {GeometryAttribute::NORMAL, GeometryAttribute::COLOR, GeometryAttribute::TEX_COORD, GeometryAttribute::GENERIC};
   std::vector<SoupAtt> atts(na);
   const int pool = 2 + static_cast<int>(r.below(6));
+  const bool no_position = r.below(6) == 0;  // the builder does not require a POSITION attribute
   for (int a = 0; a < na; ++a) {
     SoupAtt &s = atts[a];
-    s.type = a == 0 ? GeometryAttribute::POSITION : tys[r.below(4)];
+    s.type = (a == 0 && !no_position) ? GeometryAttribute::POSITION : tys[r.below(4)];
     s.dt = a == 0 ? (r.below(4) == 0 ? DT_INT32 : DT_FLOAT32) : dts[r.below(8)];
     s.nc = a == 0 ? 3 : static_cast<int>(r.range(1, 4));
     s.per_face = a != 0 && r.below(4) == 0;
